@@ -464,3 +464,140 @@ impl Prop for C02Writes {
         vec!["the fake Junos accepts <open-configuration> only for the configured instance name and records a protocol error otherwise".into()]
     }
 }
+
+// ------------------------------------------------------------------ C02: the full run never leaves stale ranges
+
+/// C02 on the full run, from states the agent cannot read completely: the ephemeral instance holds
+/// the managed policies as an earlier run left them (some with ranges that are no longer in the
+/// evaluated set) and, in most cases, something that makes the fetch of the installed state fail
+/// (a policy-statement the installed reader rejects, or an rpc-error to that get-config). Whatever
+/// the run does then - give up, or go on - every policy it has written must afterwards accept
+/// exactly its evaluated set in the (committed) instance: an update computed against a state that
+/// was not read must not leave the old ranges accepted.
+pub struct C02Run;
+
+#[derive(Debug, Clone, Serialize, Deserialize)]
+pub struct RunCase {
+    /// (evaluated v4 mask, evaluated v6 mask, installed-before v4 mask, installed-before v6 mask)
+    pub managed: Vec<(u16, u16, u16, u16)>,
+    /// 0 nothing; 1 a foreign policy-statement with a term without `from`; 2 one whose term
+    /// names an address family the agent does not know; 3 rpc-error to the get-config of the
+    /// ephemeral instance
+    pub obstacle: u8,
+}
+
+fn installed_policy(name: &str, v4: u16, v6: u16) -> Policy {
+    let term = |fam: &str, pool: &[&str], mask: u16| -> Option<Term> {
+        let filters: Vec<(String, String)> = prefixes_of(pool, mask)
+            .into_iter()
+            .map(|p| {
+                let len = p.rsplit('/').next().unwrap_or("0").to_string();
+                (p, format!("/{len}-/{len}"))
+            })
+            .collect();
+        (!filters.is_empty()).then(|| Term {
+            name: fam.into(),
+            family: Some(fam.into()),
+            filters: filters.into_iter().collect(),
+            action: Some("accept".into()),
+        })
+    };
+    Policy {
+        name: name.into(),
+        comment: Some("Last updated at 2024-01-01 00:00:00Z from mp-filter expression AS-BEFORE".into()),
+        terms: [term("inet", V4_POOL, v4), term("inet6", V6_POOL, v6)].into_iter().flatten().collect(),
+        default_action: Some("reject".into()),
+    }
+}
+
+impl Prop for C02Run {
+    type Case = RunCase;
+    fn name(&self) -> &'static str {
+        "full-run-from-unreadable-state"
+    }
+    fn rule(&self) -> String {
+        "the agent's real run (real session, readers, evaluator against a fake IRRd) against the fake Junos whose ephemeral instance holds 1..4 managed policies as an earlier run left them (generated subsets of the range pools, so ranges and whole families have to go) plus an obstacle to reading that state: none / a foreign policy-statement whose term has no from / one whose term names an unknown address family / an rpc-error to that get-config. Oracle: every policy the run wrote (its committed state differs from before) accepts exactly its evaluated set afterwards. Non-trivial = an obstacle and at least one installed range that is not in the evaluated set; distinct by case".into()
+    }
+    fn cases(&self, tier: Tier) -> u32 {
+        tier.pick(600, 40_000)
+    }
+    fn strategy(&self, _tier: Tier) -> BoxedStrategy<RunCase> {
+        let m = || any::<u16>().prop_map(|m| m & 0xfff);
+        (prop::collection::vec((m(), m(), m(), m()), 1..5), prop_oneof![1 => Just(0u8), 3 => 1u8..4])
+            .prop_map(|(managed, obstacle)| RunCase { managed, obstacle })
+            .boxed()
+    }
+    fn fixed_cases(&self) -> Vec<RunCase> {
+        (0u8..4)
+            .map(|obstacle| RunCase { managed: vec![(0b01, 0b01, 0b11, 0b11), (0b10, 0, 0b110, 0b1)], obstacle })
+            .collect()
+    }
+    fn check(&self, case: &RunCase) -> Obs {
+        let mut obs = Obs::default();
+        let now: Vec<(u16, u16)> = case.managed.iter().map(|m| (m.0, m.1)).collect();
+        let (stmts, db) = scenario(&now);
+        let irrd = match FakeIrrd::start(db.clone(), 0) {
+            Ok(s) => s,
+            Err(e) => {
+                obs.fail("harness-sanity:fake-irrd", format!("{e}"));
+                return obs;
+            }
+        };
+        let mut before = Config::default();
+        for (i, m) in case.managed.iter().enumerate() {
+            before.policies.push(installed_policy(&format!("fltr-p{i}"), m.2, m.3));
+        }
+        match case.obstacle {
+            1 | 2 => before.policies.push(Policy {
+                name: "operator-test".into(),
+                comment: None,
+                terms: vec![Term {
+                    name: "t".into(),
+                    family: (case.obstacle == 2).then(|| "iso".to_string()),
+                    filters: Default::default(),
+                    action: Some("accept".into()),
+                }],
+                default_action: Some("reject".into()),
+            }),
+            _ => {}
+        }
+        let fake = Arc::new(Mutex::new(FakeJunos::new("bgpfu")));
+        {
+            let mut f = fake.lock().unwrap();
+            f.running = stmts;
+            f.ephemeral = before.clone();
+            if case.obstacle == 3 {
+                f.faults = vec![Fault { at: 2, kind: FaultKind::RpcError }];
+            }
+        }
+        let result = crate::fullrun::agent_run(crate::fullrun::Runner::Hook, &fake, ("127.0.0.1", irrd.port), "bgpfu");
+        let after = fake.lock().unwrap().ephemeral.clone();
+        obs.class(format!("obstacle:{}", ["none", "term-without-from", "term-of-unknown-family", "rpc-error-to-get-config"][case.obstacle as usize % 4]));
+        obs.class(format!("run:{}", match &result { RunResult::Ok => "ok", RunResult::Err(_) => "failed", RunResult::Stuck => "stuck" }));
+        let stale = case.managed.iter().any(|m| m.2 & !m.0 != 0 || m.3 & !m.1 != 0);
+        obs.nontrivial = case.obstacle != 0 && stale;
+        if result == RunResult::Stuck {
+            obs.fail("run-never-completes", format!("{case:?}"));
+            return obs;
+        }
+        for i in 0..case.managed.len() {
+            let name = format!("fltr-p{i}");
+            if before.get(&name) == after.get(&name) {
+                continue;
+            }
+            obs.class("policy-written");
+            let expr = crate::irr::Expr::RouteSet(format!("RS-P{i}"), Op::None);
+            if let Err(e) = crate::props::c15::installed_matches(&after, &name, &db, &expr) {
+                obs.fail(
+                    "written-policy-accepts-outside-its-evaluated-set",
+                    format!("obstacle {}: the run ({result:?}) wrote {name:?} and left it different from its evaluated set: {e}; before: {:?}", case.obstacle, before.get(&name)),
+                );
+                return obs;
+            }
+        }
+        obs
+    }
+    fn assumptions(&self) -> Vec<String> {
+        vec!["Junos merge semantics as modelled (junos_model); 'written' is judged on the committed instance".into()]
+    }
+}
